@@ -16,16 +16,17 @@ set_option maxRecDepth 100000
 namespace Model.Core
 open Spec
 
-structure FlatTheory (fl : Nat) (V : Array UInt8 → Prop) (P : Array UInt8) : Prop where
+structure FlatTheory (fl : Nat) (V : Array UInt8 → Prop) (P : Array UInt8) (L : Nat) : Prop where
   flat : hasFlag fl fNonWrapping = true
   fits : ∀ (z out : Array UInt8) (budget : Nat), V z → P.size ≤ min budget out.size →
     (decompress {} z out 0 budget fl).status = stDone ∧ (decompress {} z out 0 budget fl).written = P.size ∧
-    ∀ i, i < P.size → (decompress {} z out 0 budget fl).out[i]? = P[i]?
+    (∀ i, i < P.size → (decompress {} z out 0 budget fl).out[i]? = P[i]?) ∧
+    (decompress {} z out 0 budget fl).consumed = L
   full : ∀ (z out : Array UInt8) (budget : Nat), V z → min budget out.size < P.size →
     (decompress {} z out 0 budget fl).status = stHasMoreOutput
 
 /-- a call on part of a valid stream never fails -/
-theorem FlatTheory.never {fl : Nat} {V : Array UInt8 → Prop} {P : Array UInt8} (T : FlatTheory fl V P)
+theorem FlatTheory.never {fl : Nat} {V : Array UInt8 → Prop} {P : Array UInt8} {L : Nat} (T : FlatTheory fl V P L)
     (a b out : Array UInt8) (budget : Nat) (hv : V (a ++ b)) :
     (decompress {} a out 0 budget fl).status = stDone ∨ (decompress {} a out 0 budget fl).status = stHasMoreOutput ∨
     (decompress {} a out 0 budget fl).status = stNeedsMoreInput ∨
@@ -46,11 +47,12 @@ theorem FlatTheory.never {fl : Nat} {V : Array UInt8 → Prop} {P : Array UInt8}
     · exact .inr (.inl (T.full _ out budget hv (by omega)))
 
 /-- a call on part of a valid stream that reports `Done` has written the plaintext -/
-theorem FlatTheory.done {fl : Nat} {V : Array UInt8 → Prop} {P : Array UInt8} (T : FlatTheory fl V P)
+theorem FlatTheory.done {fl : Nat} {V : Array UInt8 → Prop} {P : Array UInt8} {L : Nat} (T : FlatTheory fl V P L)
     (a b out : Array UInt8) (budget : Nat) (hv : V (a ++ b))
     (hd : (decompress {} a out 0 budget fl).status = stDone) :
     (decompress {} a out 0 budget fl).written = P.size ∧
-    ∀ i, i < P.size → (decompress {} a out 0 budget fl).out[i]? = P[i]? := by
+    (∀ i, i < P.size → (decompress {} a out 0 budget fl).out[i]? = P[i]?) ∧
+    (decompress {} a out 0 budget fl).consumed = L := by
   have hext := done_ext_same {} a b out 0 budget fl hd
   rw [← hext] at hd ⊢
   by_cases hfit : P.size ≤ min budget out.size
@@ -59,7 +61,7 @@ theorem FlatTheory.done {fl : Nat} {V : Array UInt8 → Prop} {P : Array UInt8} 
     rw [this] at hd; exact absurd hd (by decide)
 
 /-- a suspended call on part of a valid stream has written a prefix of the plaintext -/
-theorem FlatTheory.pref {fl : Nat} {V : Array UInt8 → Prop} {P : Array UInt8} (T : FlatTheory fl V P)
+theorem FlatTheory.pref {fl : Nat} {V : Array UInt8 → Prop} {P : Array UInt8} {L : Nat} (T : FlatTheory fl V P L)
     (a b out : Array UInt8) (budget : Nat) (hv : V (a ++ b)) (hsize : budget + P.size ≤ out.size)
     (hs : suspended (decompress {} a out 0 budget fl)) :
     (decompress {} a out 0 budget fl).written ≤ P.size ∧
@@ -73,7 +75,7 @@ theorem FlatTheory.pref {fl : Nat} {V : Array UInt8 → Prop} {P : Array UInt8} 
   have hone := T.fits (a ++ b) out (r1.written + (budget + P.size)) hv (by
     have := hfacts1.wBudget
     exact Nat.le_min.mpr ⟨by omega, by omega⟩)
-  obtain ⟨_, o2, o4⟩ := hone
+  obtain ⟨_, o2, o4, _⟩ := hone
   have hfacts2 := decompress_facts r1.r (a.extract r1.consumed a.size ++ b) r1.out (0 + r1.written) (budget + P.size) fl
   have hwle : r1.written ≤ P.size := by rw [← o2, hw]; omega
   refine ⟨hwle, fun i hi => ?_⟩
@@ -84,7 +86,7 @@ theorem FlatTheory.pref {fl : Nat} {V : Array UInt8 → Prop} {P : Array UInt8} 
 
 /-- THE RING DRIVER AGREES WITH ITS FLAT MIRROR ON EVERY PART OF A VALID STREAM (any format with a
     flat theory): the mirror never fails. -/
-theorem ring_agrees_of_flat {flagsR flagsF W : Nat} {V : Array UInt8 → Prop} {P : Array UInt8} (T : FlatTheory flagsF V P)
+theorem ring_agrees_of_flat {flagsR flagsF W : Nat} {V : Array UInt8 → Prop} {P : Array UInt8} {L : Nat} (T : FlatTheory flagsF V P L)
     (hfl : FlagsRF flagsR flagsF) (hbig : 32768 ≤ W)
     (oR oF : Array UInt8) (hW : oR.size = W) (hg : badGeometry flagsR W 0 = false)
     (z : Array UInt8) (hv : V z) :
@@ -160,7 +162,7 @@ theorem ring_agrees_of_flat {flagsR flagsF W : Nat} {V : Array UInt8 → Prop} {
 /-- The ring driver against ONE flat call: with the calls before the last suspended, the last ring
     call has the status of the single flat call on everything supplied (budget: the last grant), and
     what the ring driver delivered is what that call wrote. -/
-theorem ring_vs_one_flat_call {flagsR flagsF W : Nat} {V : Array UInt8 → Prop} {P : Array UInt8} (T : FlatTheory flagsF V P)
+theorem ring_vs_one_flat_call {flagsR flagsF W : Nat} {V : Array UInt8 → Prop} {P : Array UInt8} {L : Nat} (T : FlatTheory flagsF V P L)
     (hfl : FlagsRF flagsR flagsF) (hbig : 32768 ≤ W)
     (oR : Array UInt8) (hW : oR.size = W) (hg : badGeometry flagsR W 0 = false)
     (c : Array UInt8) (cs : List (Array UInt8)) (b : Array UInt8) (hv : V (catList (c :: cs) ++ b))
@@ -169,7 +171,9 @@ theorem ring_vs_one_flat_call {flagsR flagsF W : Nat} {V : Array UInt8 → Prop}
     ∃ (oF : Array UInt8) (G : Nat), G + extra ≤ oF.size ∧
       (decompress {} (catList (c :: cs)) oF 0 G flagsF).status = lastR.1.status ∧
       deliveredRing (runRing flagsR W {} oR 0 #[] (c :: cs)) =
-        (decompress {} (catList (c :: cs)) oF 0 G flagsF).out.extract 0 (decompress {} (catList (c :: cs)) oF 0 G flagsF).written := by
+        (decompress {} (catList (c :: cs)) oF 0 G flagsF).out.extract 0 (decompress {} (catList (c :: cs)) oF 0 G flagsF).written ∧
+      ((decompress {} (catList (c :: cs)) oF 0 G flagsF).status ≠ stFailed →
+        (decompress {} (catList (c :: cs)) oF 0 G flagsF).consumed = ((runRing flagsR W {} oR 0 #[] (c :: cs)).map (·.1.consumed)).sum) := by
   generalize hoF : Array.replicate (W * ((c :: cs).length + 1) + extra) (0 : UInt8) = oF
   have hoFsz : oF.size = W * ((c :: cs).length + 1) + extra := by rw [← hoF]; simp
   have hA := ring_agrees_of_flat T hfl hbig oR oF hW hg _ hv (c :: cs).length (c :: cs) b rfl rfl (by rw [hoFsz]; omega) hsus
@@ -198,17 +202,18 @@ theorem ring_vs_one_flat_call {flagsR flagsF W : Nat} {V : Array UInt8 → Prop}
     Bnd_fresh hgeoF hmono (by rw [hfs]; exact hsusF) lastF (by rw [hfs]; exact hlastF)
   dsimp only at hone
   rw [hcat] at hone
-  obtain ⟨o1, o2, o3, _⟩ := hone
-  rw [hfs] at o3
+  obtain ⟨o1, o2, o3, o4, _⟩ := hone
+  rw [hfs] at o3 o4
+  have hsums := (RunsAgree.sums _ _ _ hA).2
   generalize hG : lastGrant ((c, 0 + W) :: ringGrants flagsR W (decompress {} (#[] ++ c) oR 0 (W - 0) flagsR).r
         (decompress {} (#[] ++ c) oR 0 (W - 0) flagsR).out (ringNext W (0 + (decompress {} (#[] ++ c) oR 0 (W - 0) flagsR).written))
         (baseNext W 0 (0 + (decompress {} (#[] ++ c) oR 0 (W - 0) flagsR).written))
-        ((#[] ++ c).extract (decompress {} (#[] ++ c) oR 0 (W - 0) flagsR).consumed (#[] ++ c).size) cs) = G at o1 o2 o3 hroomG
+        ((#[] ++ c).extract (decompress {} (#[] ++ c) oR 0 (W - 0) flagsR).consumed (#[] ++ c).size) cs) = G at o1 o2 o3 o4 hroomG
   have he : (#[] : Array UInt8) ++ catList (c :: cs) = catList (c :: cs) := Array.empty_append
-  rw [he] at o1 o2 o3
+  rw [he] at o1 o2 o3 o4
   have hGe : 0 + G - 0 = G := by omega
-  rw [hGe] at o1 o2 o3
-  refine ⟨oF, G, ?_, by rw [o1, hl1], ?_⟩
+  rw [hGe] at o1 o2 o3 o4
+  refine ⟨oF, G, ?_, by rw [o1, hl1], ?_, fun hnf => by rw [o4 hnf, hsums]⟩
   · rw [hoFsz]; simp only [List.length_cons] at hroomG ⊢
     have : W * (cs.length + 1 + 1) = W * (cs.length + 1) + W := by rw [Nat.mul_succ]
     omega
@@ -225,7 +230,7 @@ open Spec
     four statuses; if that is `Done`, what has been delivered is `P`; while all calls are suspended
     what has been delivered is a prefix of `P`; the flag word announces more input. Derived from a flat theory
     (`ringTheory_of_flat`); instances: raw streams (`rawRingTheory`), zlib streams (`zlibRingTheory`). -/
-structure RingTheory (flags : Nat) (V : Array UInt8 → Prop) (P : Array UInt8) : Prop where
+structure RingTheory (flags : Nat) (V : Array UInt8 → Prop) (P : Array UInt8) (L : Nat) : Prop where
   status : ∀ (c : Array UInt8) (cs : List (Array UInt8)) (b : Array UInt8), V (catList (c :: cs) ++ b) →
     (∀ x ∈ (runRing flags Model.InflB.dictSize {} (Array.replicate Model.InflB.dictSize 0) 0 #[] (c :: cs)).dropLast, suspended x.1) →
     ∀ lastR, (runRing flags Model.InflB.dictSize {} (Array.replicate Model.InflB.dictSize 0) 0 #[] (c :: cs)).getLast? = some lastR →
@@ -235,7 +240,8 @@ structure RingTheory (flags : Nat) (V : Array UInt8 → Prop) (P : Array UInt8) 
     (∀ x ∈ (runRing flags Model.InflB.dictSize {} (Array.replicate Model.InflB.dictSize 0) 0 #[] (c :: cs)).dropLast, suspended x.1) →
     ∀ lastR, (runRing flags Model.InflB.dictSize {} (Array.replicate Model.InflB.dictSize 0) 0 #[] (c :: cs)).getLast? = some lastR →
     lastR.1.status = stDone →
-    deliveredRing (runRing flags Model.InflB.dictSize {} (Array.replicate Model.InflB.dictSize 0) 0 #[] (c :: cs)) = P
+    deliveredRing (runRing flags Model.InflB.dictSize {} (Array.replicate Model.InflB.dictSize 0) 0 #[] (c :: cs)) = P ∧
+    ((runRing flags Model.InflB.dictSize {} (Array.replicate Model.InflB.dictSize 0) 0 #[] (c :: cs)).map (·.1.consumed)).sum = L
   pref : ∀ (c : Array UInt8) (cs : List (Array UInt8)) (b : Array UInt8), V (catList (c :: cs) ++ b) →
     (∀ x ∈ runRing flags Model.InflB.dictSize {} (Array.replicate Model.InflB.dictSize 0) 0 #[] (c :: cs), suspended x.1) →
     ∃ n, n ≤ P.size ∧
@@ -245,18 +251,19 @@ structure RingTheory (flags : Nat) (V : Array UInt8 → Prop) (P : Array UInt8) 
 
 open Model.InflB in
 /-- FROM THE FLAT THEORY TO THE RING THEORY. -/
-theorem ringTheory_of_flat {flagsR flagsF : Nat} {V : Array UInt8 → Prop} {P : Array UInt8} (T : FlatTheory flagsF V P)
+theorem ringTheory_of_flat {flagsR flagsF : Nat} {V : Array UInt8 → Prop} {P : Array UInt8} {L : Nat} (T : FlatTheory flagsF V P L)
     (hfl : FlagsRF flagsR flagsF) (hg : badGeometry flagsR dictSize 0 = false)
-    (hmore : hasFlag flagsR fHasMoreInput = true) : RingTheory flagsR V P where
+    (hmore : hasFlag flagsR fHasMoreInput = true) : RingTheory flagsR V P L where
   status := by
     intro c cs b hv hsus lastR hlast
-    obtain ⟨oF, G, _, hst, _⟩ := ring_vs_one_flat_call T hfl (by decide) (Array.replicate dictSize 0) (by simp) hg c cs b hv hsus lastR hlast 0
+    obtain ⟨oF, G, _, hst, _, _⟩ := ring_vs_one_flat_call T hfl (by decide) (Array.replicate dictSize 0) (by simp) hg c cs b hv hsus lastR hlast 0
     rw [← hst]
     exact T.never _ b oF G hv
   done := by
     intro c cs b hv hsus lastR hlast hd
-    obtain ⟨oF, G, _, hst, hdel⟩ := ring_vs_one_flat_call T hfl (by decide) (Array.replicate dictSize 0) (by simp) hg c cs b hv hsus lastR hlast 0
-    obtain ⟨hw, hb⟩ := T.done _ b oF G hv (by rw [hst]; exact hd)
+    obtain ⟨oF, G, _, hst, hdel, hcons⟩ := ring_vs_one_flat_call T hfl (by decide) (Array.replicate dictSize 0) (by simp) hg c cs b hv hsus lastR hlast 0
+    obtain ⟨hw, hb, hL⟩ := T.done _ b oF G hv (by rw [hst]; exact hd)
+    refine ⟨?_, by rw [← hcons (by rw [hst, hd]; decide), hL]⟩
     rw [hdel, hw]
     have hf1 := decompress_facts {} (catList (c :: cs)) oF 0 G flagsF
     have hsz : P.size ≤ (decompress {} (catList (c :: cs)) oF 0 G flagsF).out.size := by
@@ -269,7 +276,7 @@ theorem ringTheory_of_flat {flagsR flagsF : Nat} {V : Array UInt8 → Prop} {P :
       cases h : (runRing flagsR dictSize {} (Array.replicate dictSize 0) 0 #[] (c :: cs)).getLast? with
       | none => simp [runRing] at h
       | some l => exact ⟨l, rfl⟩
-    obtain ⟨oF, G, hsz, hst, hdel⟩ := ring_vs_one_flat_call T hfl (by decide) (Array.replicate dictSize 0) (by simp) hg c cs b hv
+    obtain ⟨oF, G, hsz, hst, hdel, _⟩ := ring_vs_one_flat_call T hfl (by decide) (Array.replicate dictSize 0) (by simp) hg c cs b hv
       (fun x hx => hsus x (List.dropLast_subset _ hx)) lastR hlast P.size
     have hls : suspended lastR.1 := hsus lastR (List.mem_of_getLast? hlast)
     obtain ⟨p1, p2⟩ := T.pref _ b oF G hv hsz (by unfold suspended; rw [hst]; exact hls)
@@ -282,13 +289,13 @@ theorem ringTheory_of_flat {flagsR flagsF : Nat} {V : Array UInt8 → Prop} {P :
 /-- the flat theory of RAW streams: `V z` = the reference decoder accepts `z` with result `res` -/
 theorem rawFlatTheory (fl : Nat) (hflat : hasFlag fl fNonWrapping = true) (hz : hasFlag fl fParseZlib = false)
     (hstop : hasFlag fl fStopOnBlockBoundary = false) (res : Inflated) :
-    FlatTheory fl (fun z => inflateSpec #[] 32768 z 0 = .accept res) res.out where
+    FlatTheory fl (fun z => inflateSpec #[] 32768 z 0 = .accept res) res.out ((res.bitsUsed + 7) / 8) where
   flat := hflat
   fits := by
     intro z out budget hv hfit
     have h := refine_raw_flat {} z out 0 budget fl 32768 res rfl ⟨rfl, rfl, rfl⟩ hflat hz hstop (Nat.zero_le _)
       (by simpa using hv) (by simpa using hfit)
-    exact ⟨h.1, h.2.1, fun i hi => by have := h.2.2.2 i hi; rwa [Nat.zero_add] at this⟩
+    exact ⟨h.1, h.2.1, fun i hi => by have := h.2.2.2 i hi; rwa [Nat.zero_add] at this, h.2.2.1⟩
   full := by
     intro z out budget hv hbig
     exact full_raw_flat {} z out 0 budget fl 32768 res rfl ⟨rfl, rfl, rfl⟩ hflat hz hstop (Nat.zero_le _)
@@ -298,13 +305,13 @@ theorem rawFlatTheory (fl : Nat) (hflat : hasFlag fl fNonWrapping = true) (hz : 
     equal to the Adler-32 of the body's plaintext) with result `zr` -/
 theorem zlibFlatTheory (fl : Nat) (hflat : hasFlag fl fNonWrapping = true) (hz : hasFlag fl fParseZlib = true)
     (hstop : hasFlag fl fStopOnBlockBoundary = false) (zr : ZInflated) :
-    FlatTheory fl (fun z => zlibSpec #[] 32768 z true = .accept zr) zr.inner.out where
+    FlatTheory fl (fun z => zlibSpec #[] 32768 z true = .accept zr) zr.inner.out zr.bytesUsed where
   flat := hflat
   fits := by
     intro z out budget hv hfit
     have h := C03.valid_zlib_stream_decodes_one_shot {} z out 0 budget fl 32768 zr rfl ⟨rfl, rfl, rfl⟩ hflat hz hstop (Nat.zero_le _)
       (by simpa using hv) (by simpa using hfit)
-    exact ⟨h.1, h.2.1, fun i hi => by have := h.2.2.2 i hi; rwa [Nat.zero_add] at this⟩
+    exact ⟨h.1, h.2.1, fun i hi => by have := h.2.2.2 i hi; rwa [Nat.zero_add] at this, h.2.2.1⟩
   full := by
     intro z out budget hv hbig
     have hv' : zlibSpec (out.extract 0 0) 32768 z true = .accept zr := by simpa using hv
